@@ -109,16 +109,20 @@ func (g *blockBufferImageGranularity) CheckConflictAndAlignUp(
 	}
 
 	startSlot := g.getStartSlot(allocOffset)
-	for g.regionInfo[startSlot].allocCount > 0 &&
+	for startSlot < len(g.regionInfo) && g.regionInfo[startSlot].allocCount > 0 &&
 		g.AllocationsConflict(uint32(g.regionInfo[startSlot].allocType), allocType) {
 
-		allocOffset = memutils.AlignUp(allocOffset, g.bufferImageGranularity)
+		// Move on to the start of the next page (the offset may already sit on a page boundary)
+		allocOffset = (startSlot + 1) * int(g.bufferImageGranularity)
 
 		if regionSize < allocSize+allocOffset-regionOffset {
 			return allocOffset, true
 		}
 
 		startSlot++
+	}
+	if startSlot >= len(g.regionInfo) {
+		return allocOffset, true
 	}
 
 	endSlot := g.getEndSlot(allocOffset, allocSize)
